@@ -48,7 +48,7 @@ package absnfs
 //@ functype nfsHandler(h, body, reply, authCtx)
 //@ prop C08
 //@ requires srvOK(h) && reply != nil && authCtx != nil
-//@ modifies everything, allghosts - handlerCalls - atomicptr - lsncfg - poolsrc, locks, once
+//@ modifies everything, allghosts - handlerCalls - atomicptr - lsncfg - poolsrc - ioCalls - ioReplies, locks, once
 // while the read-only policy is in force the handler issues no modifying backend operation
 //@ ensures [ro-no-backend-mutation] old(curPolicy(h.server.handler).ReadOnly) ==> mutlog == old(mutlog)
 // C11: a caller whose effective uid is not 0 never has the backend record an owner other than itself
@@ -59,7 +59,7 @@ package absnfs
 //@ partial
 //@ partial
 //@ requires srvOK(h) && call != nil && reply != nil && authCtx != nil
-//@ modifies everything, allghosts - handlerCalls - atomicptr - lsncfg - poolsrc, locks, once
+//@ modifies everything, allghosts - handlerCalls - atomicptr - lsncfg - poolsrc - ioCalls - ioReplies, locks, once
 //@ ensures [ro-no-backend-mutation] old(curPolicy(h.server.handler).ReadOnly) ==> mutlog == old(mutlog)
 
 // ---- procedures that never modify the backend, read-only export or not
@@ -304,7 +304,7 @@ package absnfs
 //@ prop C08
 //@ partial
 //@ requires srvOK(h) && call != nil && reply != nil && authCtx != nil
-//@ modifies everything, allghosts - handlerCalls - atomicptr - lsncfg - poolsrc, locks, once
+//@ modifies everything, allghosts - handlerCalls - atomicptr - lsncfg - poolsrc - ioCalls - ioReplies, locks, once
 //@ ensures [never-mutates] mutlog == old(mutlog)
 
 // ---- SETATTR in the operation layer: ownership is assigned only when it differs from the node's, and then
